@@ -216,7 +216,10 @@ def streams(ctx):
     SESS = [("jsr", "file:///w/deno.json", '{\n  "imports": {\n    "@std/path": "jsr:@std/path@^1.0.0"\n  }\n}', "jsr", "@std/path", ["1.0.0", "1.0.5", "1.2.0", "2.0.0"], 2),
             ("npm", "file:///w/package.json", '{\n  "dependencies": {\n    "alias": "npm:real-pkg@^1.0.0",\n    "lodash": "~1.0.0"\n  }\n}', "npm", "real-pkg", ["1.0.0", "1.0.5", "1.2.0"], 2),
             ("gha", "file:///w/.github/workflows/ci.yml", 'jobs:\n  b:\n    steps:\n      - uses: "actions/checkout@v1.0.0"\n', "github_actions", "actions/checkout", ["v1.0.0", "v1.0.5", "v2.0.0"], 3),
-            ("npm", "file:///w/package.json", '{"name": "é日本", "dependencies": {"é": "1.0.0", "alias": "npm:real-pkg@^1.0.0", "ü": "2"}}', "npm", "real-pkg", ["1.0.0", "1.0.5", "1.2.0"], 0),
+            ("npm", "file:///w/package.json", '{"name": "é日本😀", "dependencies": {"😀": "1.0.0", "alias": "npm:real-pkg@^1.0.0", "ü": "2"}}', "npm", "real-pkg", ["1.0.0", "1.0.5", "1.2.0"], 0),
+            # the version text also occurs earlier in the token (inside the package name): the LAST occurrence is the version
+            ("npm", "file:///w/package.json", '{\n  "dependencies": {\n    "shim": "npm:es5-shim@5.0.0"\n  }\n}', "npm", "es5-shim", ["5.0.0", "5.0.2", "5.1.0"], 2),
+            ("jsr", "file:///w/deno.json", '{\n  "imports": {\n    "h": "jsr:@std/http1.0.0@1.0.0"\n  }\n}', "jsr", "@std/http1.0.0", ["1.0.0", "1.0.5"], 2),
             ("crates", "file:///w/Cargo.toml", '[dependencies]\nserde = { version = "1.0.0", features = ["derive"] }\n', "crates_io", "serde", ["1.0.0", "1.0.5", "1.1.0"], 1)]
     scases, sgroups = [], []
     for eco, uri, text, reg, name, vs, li in SESS:
@@ -252,9 +255,11 @@ def streams(ctx):
                 for item in [x for x in body.split(",") if x]:
                     title, l1, c1, c2, newtext = item.split("|")
                     offered += 1
-                    old = ln[int(c1):int(c2)]
+                    u16 = ln.encode("utf-16-le")          # the edit range is in UTF-16 code units
+                    old = u16[2 * int(c1): 2 * int(c2)].decode("utf-16-le", "replace")
+                    after = u16[2 * int(c2): 2 * int(c2) + 2].decode("utf-16-le", "replace")
                     newt = vlib.unhx(newtext)
-                    if int(l1) != li or not (old and old[0] in "^~v0123456789" and old.lstrip("^~v")[:1].isdigit() and newt[:1] == old[:1] and ln[int(c2):int(c2) + 1] in ('"', "", " ", ",")):
+                    if int(l1) != li or not (old and old[0] in "^~v0123456789" and old.lstrip("^~v")[:1].isdigit() and newt[:1] == old[:1] and after in ('"', "", " ", ",")):
                         der.append({"req": vlib.line("ml.settle"), "index": i, "history": lines[: i - a + 1],
                                     "check": (lambda out, old=old, newt=newt, ln=ln: ("violation", f"the edit replaces {old!r} with {newt!r} in the line {ln!r}: that is not the version text"))})
             if offered == 0:
